@@ -66,42 +66,51 @@ func runC14(c *Ctx) {
 		la1.Collect(d.SendProbe, "recv", nil)
 		la2 := core.NewLockAnalysis(c.P)
 		la2.Collect(d.ReceiveProbe, "recv", nil)
-		uses := map[string]*objUse{}
+		// objects (receiver field paths) touched by each side; overlap = same path or one inside the other
+		var sendAcc, recvAcc []core.Access
 		for _, a := range la1.Accesses {
 			if strings.HasPrefix(a.Obj, "recv.") {
-				u := uses[a.Obj]
-				if u == nil {
-					u = &objUse{}
-					uses[a.Obj] = u
-				}
-				u.send = append(u.send, a)
+				sendAcc = append(sendAcc, a)
 			}
 		}
 		for _, a := range la2.Accesses {
 			if strings.HasPrefix(a.Obj, "recv.") {
-				u := uses[a.Obj]
-				if u == nil {
-					u = &objUse{}
-					uses[a.Obj] = u
-				}
-				u.recv = append(u.recv, a)
+				recvAcc = append(recvAcc, a)
 			}
 		}
+		nameSet := map[string]bool{}
+		for _, a := range sendAcc {
+			nameSet[a.Obj] = true
+		}
+		for _, a := range recvAcc {
+			nameSet[a.Obj] = true
+		}
 		var names []string
-		for k := range uses {
+		for k := range nameSet {
 			names = append(names, k)
 		}
 		sort.Strings(names)
 		nshared := 0
 		for _, obj := range names {
-			u := uses[obj]
+			u := &objUse{}
+			for _, a := range sendAcc {
+				if core.Related(a.Obj, obj) {
+					u.send = append(u.send, a)
+				}
+			}
+			for _, a := range recvAcc {
+				if core.Related(a.Obj, obj) {
+					u.recv = append(u.recv, a)
+				}
+			}
 			if len(u.send) == 0 || len(u.recv) == 0 {
 				continue
 			}
+			// only accesses OF this object or of something inside it count as writes to it; reads of an enclosing object count too
 			all := append(append([]core.Access{}, u.send...), u.recv...)
 			write, atomic, syncT := false, true, false
 			for _, a := range all {
-				if a.Write {
+				if a.Write && (a.Obj == obj || strings.HasPrefix(a.Obj, obj+".") || strings.HasPrefix(obj, a.Obj+".")) {
 					write = true
 				}
 				if !a.Atomic {
@@ -111,9 +120,19 @@ func runC14(c *Ctx) {
 					syncT = true
 				}
 			}
+			// report each conflict once, under the most specific written name
+			specific := true
+			for _, a := range all {
+				if a.Write && strings.HasPrefix(a.Obj, obj+".") {
+					specific = false
+				}
+			}
 			key := fmt.Sprintf("%s#field[%s]", d.Name, obj)
 			if !write {
 				R.OK("R14.1", key, all[0].Instr.Pos(), d.Name, "touched by sender and receiver, never written by either (written only before the engine starts)")
+				continue
+			}
+			if !specific {
 				continue
 			}
 			nshared++
@@ -144,21 +163,27 @@ func runC14(c *Ctx) {
 				}
 				R.OK("R14.1", key, all[0].Instr.Pos(), d.Name, fmt.Sprintf("%d accesses (sender %d, receiver %d), all under %s", len(all), len(u.send), len(u.recv), strings.Join(cl, ",")))
 			} else {
-				// name one unguarded writer and one unguarded other access
+				// name one unguarded writer and one unguarded access from the OTHER side
 				var w, o *core.Access
+				wSend := false
 				for i := range all {
 					if all[i].Write && w == nil {
 						w = &all[i]
+						wSend = i < len(u.send)
 					}
 				}
-				for i := range all {
-					if &all[i] != w && len(all[i].Locks) == 0 && (o == nil) {
-						o = &all[i]
+				other := u.recv
+				if !wSend {
+					other = u.send
+				}
+				for i := range other {
+					if o == nil || len(other[i].Locks) == 0 {
+						o = &other[i]
 					}
 				}
-				det := fmt.Sprintf("field %s is written at %s (%s, locks %v)", obj, c.P.PosStr(w.Instr.Pos()), core.FuncName(w.Fn), w.Locks)
+				det := fmt.Sprintf("%s is written at %s (%s, locks %v)", obj, c.P.PosStr(w.Instr.Pos()), core.FuncName(w.Fn), w.Locks)
 				if o != nil {
-					det += fmt.Sprintf(" and accessed at %s (%s, locks %v)", c.P.PosStr(o.Instr.Pos()), core.FuncName(o.Fn), o.Locks)
+					det += fmt.Sprintf(" and %s is accessed at %s (%s, locks %v)", o.Obj, c.P.PosStr(o.Instr.Pos()), core.FuncName(o.Fn), o.Locks)
 				}
 				det += " from the concurrently running SendProbe / ReceiveProbe trees with no common mutex"
 				R.Fail("R14.1", key, w.Instr.Pos(), d.Name, det)
